@@ -173,6 +173,7 @@ func (f *Frame) clone() *Frame {
 
 type loopEntry struct {
 	header  *ssa.BasicBlock
+	depth   int // frame depth the loop belongs to (0: the function under verification)
 	decInit Term
 	hasDec  bool
 	oldHeap map[string]Term
@@ -190,6 +191,7 @@ type Config struct {
 	heldLocks []heldLock // mutexes with a lock invariant currently held on this path
 	pendingW  []*watcher // goroutines to try to run after a close / cancel
 	closedNow bool       // a channel was just closed: run watchers after the instruction
+	kind      string     // waiter kind this path is verified for (option waitkinds a b)
 }
 
 type heldLock struct {
@@ -198,7 +200,7 @@ type heldLock struct {
 }
 
 func (c *Config) clone() *Config {
-	n := &Config{st: c.st.clone(), panicking: c.panicking, panicVal: c.panicVal, recovered: c.recovered, old: c.old}
+	n := &Config{st: c.st.clone(), panicking: c.panicking, panicVal: c.panicVal, recovered: c.recovered, old: c.old, kind: c.kind}
 	for _, f := range c.frames {
 		n.frames = append(n.frames, f.clone())
 	}
